@@ -117,7 +117,7 @@ def run(prog, world, sem, rep):
             pv = sem.aval(sem.field_of(wv, "paused"), env) if wv is not None else None
             inst = "%s [paused=%s]" % (path, cname)
             if pv and pv[0] == "enum" and pv[1] == "Some" and pv[2] and pv[2][0] == ("int", 1):
-                rep.ob("C11.c", inst, True, "stores paused = Some(true): no obligation", where(body, bb))
+                rep.ob("C11.c", inst, True, "stores paused = Some(true): no obligation", where(body, bb), fkey="paused=%s" % cname)
                 continue
             removed = set(sem.feasible_removed(be, env))
             pass_edges = set()
@@ -132,13 +132,13 @@ def run(prog, world, sem, rep):
             reach = be.cfg.reach([0], removed=removed | pass_edges)
             feasible = be.cfg.reach([0], removed=removed)
             if bb not in feasible:
-                rep.ob("C11.c", inst, True, "write infeasible in this case", where(body, bb))
+                rep.ob("C11.c", inst, True, "write infeasible in this case", where(body, bb), fkey="paused=%s" % cname)
                 continue
             ok = bb not in reach
             rep.ob("C11.c", inst, ok,
                    "PARAMETERS written with paused=%s without having observed the legacy wait list empty (path lines %s)" % (
                        pv, GuardAnalysis.path_lines(body, be.cfg.path(0, bb, removed=removed | pass_edges) or [])) if not ok
-                   else "write only after the legacy wait list was observed empty", where(body, bb))
+                   else "write only after the legacy wait list was observed empty", where(body, bb), fkey="paused=%s" % cname)
 
     # C11.f
     from ..callgraph import site_guarded
